@@ -87,6 +87,19 @@ for p in sorted(root.glob("*.py")):
     for st in tree.body:
         if isinstance(st, ast.Assign) and len(st.targets) == 1 and isinstance(st.targets[0], ast.Name):
             out.append(f"cval:{m}.{st.targets[0].id}=" + hashlib.sha1(ast.dump(st.value).encode()).hexdigest()[:16] + ":" + type(st.value).__name__)
+# private attributes (`self._x = ...`) of every class, in the order they are first stored: a renamed private attribute is recognised
+for p in sorted(root.glob("*.py")):
+    tree = ast.parse(p.read_text())
+    m = p.stem
+    for st in tree.body:
+        if isinstance(st, ast.ClassDef):
+            names = []
+            for x in sorted([x for x in ast.walk(st) if isinstance(x, ast.Attribute) and isinstance(x.ctx, ast.Store) and isinstance(x.value, ast.Name)
+                             and x.value.id == "self" and x.attr.startswith("_") and not x.attr.startswith("__")], key=lambda x: (x.lineno, x.col_offset)):
+                if x.attr not in names:
+                    names.append(x.attr)
+            if names:
+                out.append(f"attrs:{m}.{st.name}=" + ",".join(names))
 dst = Path(__file__).resolve().parents[1] / "hvsa" / "baseline_functions.txt"
 dst.write_text("# functions of the pinned hvsrpy tree (names only); see hvsa/normalize.py\n" + "\n".join(sorted(set(out))) + "\n")
 print(len(out), "functions ->", dst)
